@@ -96,13 +96,17 @@ func (f *fragSource) Read(p []byte) (int, error) {
 }
 
 func openReader(format string, src io.Reader) (io.Reader, error) {
+	return openReaderDict(format, src, 4096)
+}
+
+func openReaderDict(format string, src io.Reader, dict int) (io.Reader, error) {
 	switch format {
 	case "xz":
-		return xz.ReaderConfig{DictCap: 4096}.NewReader(src)
+		return xz.ReaderConfig{DictCap: dict}.NewReader(src)
 	case "lzma2":
-		return lzma.Reader2Config{DictCap: 4096}.NewReader2(src)
+		return lzma.Reader2Config{DictCap: dict}.NewReader2(src)
 	}
-	return lzma.ReaderConfig{DictCap: 4096}.NewReader(src)
+	return lzma.ReaderConfig{DictCap: dict}.NewReader(src)
 }
 
 func c13Body(r *core.Run, s Stream, p C13Case, x *core.X) {
